@@ -148,6 +148,19 @@ def check_plan(kind, fe, size, T, C, calls, scaled):
     return out, n
 
 
+class ZeroStream:
+    """A readable, non-seekable stream of ``size`` zero bytes whose length the library cannot know in advance."""
+
+    def __init__(self, size):
+        self.left = size
+
+    def read(self, n=-1):
+        if n is None or n < 0 or n > self.left:
+            n = self.left
+        self.left -= n
+        return bytes(n)
+
+
 def run_manager(case):
     """One manager, many transfers of one kind at API level."""
     from s3transfer.manager import TransferConfig, TransferManager
@@ -187,7 +200,10 @@ def run_manager(case):
         items = case.get('seq') or [(case['kind'], s) for s in case['sizes']]
         for i, (kind, size) in enumerate(items):
             key = f'k{i}'
-            if kind == 'upload':
+            if kind == 'upload_stream':
+                # size unknown to the library: only the part-size limits can be applied to the configured chunk size
+                futs.append((size, key, mgr.upload(ZeroStream(size), 'bkt', key), 'upload'))
+            elif kind == 'upload':
                 path = os.path.join(tmp, f'src{i}')
                 osu.virtual_sizes[path] = size
                 futs.append((size, key, mgr.upload(path, 'bkt', key), kind))
@@ -398,6 +414,13 @@ def gen_cases(tier, seed):
                 for fe in ('legacy', 'procpool'):
                     d2 = [s for s in dl if math.ceil(s / C) <= 300 and (fe != 'procpool' or s > 0)]
                     cases.append({'type': 'fe', 'fe': fe, 'T': T, 'C': C, 'sizes': d2 if not quick else d2[::3]})
+    # uploads from non-seekable streams of unknown size: the configured chunk size can only be brought within [5 MiB, 5 GiB]
+    for C in ([1, MB, 5 * MB - 1, 5 * MB, 8 * MB] if quick else [1, 4096, MB, 5 * MB - 1, 5 * MB, 5 * MB + 1, 8 * MB, 16 * MB]):
+        for T in ([8 * MB] if quick else [MB, 8 * MB, 20 * MB]):
+            cases.append({'type': 'mgr', 'kind': 'upload_stream', 'T': T, 'C': C,
+                          'sizes': sorted({T - 1, T, T + 1, 2 * max(C, 5 * MB) + 1, 17 * MB + 3})})
+    for (T, C) in ((4, 1), (4, 3), (8, 8), (6, 16)):
+        cases.append({'type': 'mgr', 'kind': 'upload_stream', 'T': T, 'C': C, 'scaled': True, 'sizes': list(range(0, 40))})
     # history: mixed kinds one after the other on one manager, starting with transfers whose part size has to be adjusted
     for rep in range(6 if quick else 40):
         C = rng.choice([1, 2, 3])
